@@ -1,7 +1,63 @@
-SWEEP_NOTE = "Trusted: Go toolchain regexp as oracle; bounds L1/L4 of DESIGN §0 (pattern AST size, haystack symbols, embeddings); known findings matched by exact case hash."
+SWEEP_NOTE = "Trusted: package regexp of the repository's toolchain as oracle; bounds L1/L4 of DESIGN §0 (pattern AST size, haystack symbols, embeddings); known findings matched by exact case hash (known_findings.json)."
+REF_NOTE = "Trusted: the reference matcher internal/refre (priority-ordered backtracking over regexp/syntax's program), itself compared with package regexp on every explored input (a disagreement aborts the run as a harness error); bounds as in the evidence file."
+
 add("C01", "bx", "bounded exhaustive program×input enumeration on the real code vs package regexp",
-    "Every pattern AST up to the size bound and every seed edit-neighbour, on every haystack up to the symbol bound (ASCII, UTF-8, ill-formed, vector-stride embeddings), through every boolean entry point: no divergence from regexp other than the listed known findings.",
+    "Every pattern AST up to the size bound and every seed edit-neighbour, on every haystack up to the symbol bound (ASCII, UTF-8, ill-formed, vector-stride embeddings), through every boolean entry point (Match, MatchString, MatchReader, package-level forms, Engine.IsMatch): no divergence from regexp other than the listed known findings.",
     SWEEP_NOTE, "§3 C01")
+add("C02", "bx", "bounded exhaustive program×input enumeration on the real code vs package regexp",
+    "Same spaces as C01 through Find, FindString, FindIndex, FindStringIndex, FindReaderIndex, Engine.FindIndices, Engine.Find: the leftmost-first span equals regexp's.",
+    SWEEP_NOTE, "§3 C02")
+add("C03", "bx", "bounded exhaustive program×input enumeration on the real code vs package regexp",
+    "Same spaces through the five Find*Submatch* forms and Engine.FindSubmatch(At): every capture position, nil-ness and group count equals regexp's.",
+    SWEEP_NOTE, "§3 C03")
+add("C04", "bx", "bounded exhaustive program×input×limit enumeration on the real code vs regexp.FindAllSubmatchIndex",
+    "Same spaces, every limit n in {-1,0,1,2,3,|m|,|m|+1}, through all FindAll* forms, Count, the four iterators (with early break), AppendAll*Index with three dst shapes and the Engine enumeration API: the enumerated sequence equals regexp's.",
+    SWEEP_NOTE, "§3 C04")
+add("C05", "wx", "exhaustive pattern × pump-family enumeration on a deterministic work-counter build (overlay-instrumented real code)",
+    "On a build of the current tree with a tick at every function entry and loop iteration, every pattern of the bounded space on every pump family at lengths L, 2L, 4L: work at most doubles (x2.6) when the input doubles, never exceeds 40 000 ticks per byte; compile work grows polynomially on the listed pattern families.",
+    "Trusted: tick count as proxy for time (assembly/stdlib scans count one tick per call); L2: growth rate decided up to 4L on the enumerated families only.", "§3 C05")
+add("C06", "sx", "stateless model checking: preemption-bounded DFS over all interleavings of the real code under a controlled scheduler, plus the race detector on every explored schedule",
+    "The library is rebuilt with sync.Pool/atomic.Pointer shims (overlay generated from the current tree); for every strategy seed and every harness of 2-3 threads x 1-2 calls ALL schedules with at most 2 preemptions (and 'pool emptied by GC' deviations) are executed on fresh values: no pooled/slot object has two holders, every result equals the result of the call run alone, and the race detector (which cannot see the scheduler's raw-pipe hand-offs) reports no unordered conflicting accesses on any explored schedule.",
+    "Trusted: sequentially consistent interleavings at sync operations (L3); the race detector's happens-before analysis; scheduling points = the library's sync.Pool/atomic.Pointer operations.", "§3 C06")
+add("C07", "mx", "exhaustive enumeration of short pattern strings × guarded-memory haystacks through every exported method with totality and well-formedness monitors",
+    "Every string over the pattern alphabet up to the length bound is compiled (must return); every one that compiles runs every exported search/replace/split/reader method and the Engine *At entry points on haystacks placed flush against inaccessible pages in read-only memory: no panic, fault, write or watchdog expiry; every span, capture vector, enumeration and returned slice is well-formed.",
+    "Trusted: kernel page protection (out-of-slice reads detected when they cross the guard page); hangs detected by a generous per-unit watchdog; strings/haystacks within stated bounds.", "§3 C07")
+add("C08", "bx", "bounded exhaustive template-grammar and program×source enumeration vs package regexp",
+    "Every template of at most T symbols over {$ { } 0 1 n x _} through ReplaceAll(String)/Expand(String) on capture-bearing programs, and every pattern × source through the Replace*/Split forms (all n): byte-for-byte equal to regexp, result never aliases src.",
+    SWEEP_NOTE, "§3 C08")
+add("C09", "bx", "exhaustive enumeration of all short pattern strings and limit families vs package regexp",
+    "Every string up to the length bound over the pattern alphabet through Compile/CompilePOSIX/MustCompile/MustCompilePOSIX (acceptance and exact error/panic text) and, when accepted, String, NumSubexp, SubexpNames, SubexpIndex, LiteralPrefix, MarshalText/UnmarshalText, Copy; QuoteMeta on every short string with the round trip; nesting/repetition/alternation limit families at every parameter value.",
+    SWEEP_NOTE, "§3 C09")
+add("C10", "bx", "bounded exhaustive program×input enumeration in leftmost-longest mode vs package regexp, plus exhaustive operation-sequence exploration for mode isolation",
+    "The C01-C04 operations on values put in leftmost-longest mode by Longest() and by CompilePOSIX equal regexp in the same mode; every sequence of at most d Compile/Copy/Longest operations leaves every live value answering like its regexp twin (the mode belongs to one value).",
+    SWEEP_NOTE, "§3 C10")
+add("C11", "bx", "bounded exhaustive program×input enumeration checking cross-API relations (no external oracle)",
+    "On every (pattern, haystack) of the bounded space all views agree: Match<=>FindIndex, Find/FindString/Submatch[0] = h[FindIndex], byte/string/reader forms, FindAll(n) prefixes, Count, iterators, AppendAllIndex, group 0 of FindAllSubmatch, and the Engine API including FindIndicesAt = FindAt = FindSubmatchAt[0] at every offset.",
+    "Trusted: nothing external (relations between results of the same value); bounds as in the evidence file.", "§3 C11")
+add("C12", "bx", "exhaustive enumeration of configurations within a deviation bound × programs × inputs × CPU-feature masks (differential)",
+    "Every configuration with at most k deviations from the default (invalid ones must be rejected), every pattern and haystack of the bounded space, under three CPU-feature masks: Match/FindIndex/FindSubmatchIndex/FindAllIndex equal the default configuration's, whose boolean and span equal the plain NFA simulation.",
+    "Trusted: differential oracle (default config and plain PikeVM of the same tree); x/sys/cpu honours GODEBUG=cpu.<f>=off.", "§3 C12")
+add("C13", "hx", "explicit-state breadth-first search over call histories on one compiled value with full-state hashing (real code, replayed shortest histories)",
+    "For every program (strategy seeds × default / shrunken lazy-DFA caches / near-wrap backtracker generation / longest) all call sequences up to the depth bound over 7 APIs × 7 haystacks + GC: every result equals the result on a fresh value and repeating the call gives the same result; states merged only when EVERYTHING reachable from the Regex hashes equal.",
+    "Trusted: reflection walker completeness (fails loudly on unknown kinds; sync.Pool private slot read through a self-tested layout); sequential histories only; depth and transition cap as in the evidence.", "§3 C13")
+add("C14", "ex", "bounded exhaustive direct exploration of each engine at every offset and cache configuration vs the validated reference matcher",
+    "PikeVM (all entry points, three NFA compilation modes, longest), bounded backtracker, lazy DFA forward/anchored/earliest/reverse under every listed cache configuration on reused and fresh caches, and the one-pass DFA, on every pattern, haystack and rune-boundary offset of the bounded space: each call returns the reference answer or the documented decline.",
+    REF_NOTE, "§3 C14")
+add("C15", "ax", "exhaustive walk of compiled byte automata over every code point and all short byte strings vs package regexp",
+    "For every class/literal/dot program and each compilation mode an independent simulator over the compiled NFA, and end-to-end Match, accept the UTF-8 encoding of EVERY code point exactly when regexp does, and agree with regexp on every byte string of length <= 2 and boundary strings of length 3-4.",
+    "Trusted: package regexp and regexp/syntax class tables (cross-validated against each other during the run); the independent simulator's reading of RuneAny states.", "§3 C15")
+add("C16", "px", "exhaustive literal-set × haystack × offset enumeration of every prefilter implementation under guard pages and CPU-feature masks, plus tracker history exploration",
+    "Every literal set of the bounded space built through Builder, NewTeddy (fingerprint 1-4), NewFatTeddy, the wrappers and the tracker, and the digit prefilter: Find returns the smallest position >= start where a literal occurs (or -1); complete prefilters report regexp's span of the literal alternation; the tracker follows its documented protocol on every operation sequence up to depth 5.",
+    "Trusted: scalar definition as oracle; package regexp for complete spans; kernel page protection; literal alphabets/lengths as stated.", "§3 C16")
+add("C17", "lx", "bounded exhaustive enumeration of each pattern's language (all match spans of the reference matcher) vs extracted literal sequences under every extractor limit; exhaustive Seq algebra",
+    "For every pattern and extractor configuration within the deviation bound, every match string of the pattern up to the length bound starts with / ends with / contains one of the extracted literals unless the sequence is empty or partial; Complete literals are matches and preferred; Seq operations preserve coverage and the Complete discipline on all small sequences.",
+    REF_NOTE, "§3 C17")
 add("C18", "mx", "exhaustive length×placement×hit-position×content enumeration of each primitive against its scalar definition, under guard pages and CPU-feature masks",
     "Every simd primitive on every length 0..200, flush against inaccessible pages on both sides and at interior alignments, every hit position / no hit / two hits / near-miss bytes / every byte value, under three CPU-feature masks: result equals the scalar one-liner, no fault, no write.",
-    "Trusted: kernel page protection; x/sys/cpu honouring GODEBUG; lengths ≤ 200 only.", "§3 C18")
+    "Trusted: kernel page protection; x/sys/cpu honouring GODEBUG; lengths <= 200 only.", "§3 C18")
+add("C19", "fx", "bounded exhaustive enumeration of the patterns each applicability predicate accepts, driving the fast path directly and through the Engine *At entry points at every offset vs the validated reference matcher",
+    "Whenever a predicate accepts a pattern (char-class, composite table/DFA, branch dispatch, anchored literal, first-byte filter) the directly constructed searcher, and whenever strategy selection picks a fast path the Engine's FindIndicesAt/FindAt/FindSubmatchAt at every offset, IsMatch and Count, return the reference result on every haystack of the bounded space.",
+    REF_NOTE, "§3 C19")
+add("C20", "hx", "explicit-state breadth-first search over call histories with capacity monitors on every state, steady-state growth check and exhaustive allocation sweep",
+    "On every state of the C13 history graph every lazy-DFA cache is within capacity + one state and every visited table within its cap; repeating any explored history 8 times leaves the value no larger than after 4 times; the calls documented as zero-allocation allocate nothing after warm-up on every seed × haystack.",
+    "Trusted: reflection walker deep-size accounting; collector switched off except at explicit GC events; AllocsPerRun semantics.", "§3 C20")
